@@ -157,7 +157,112 @@ pub fn mutate_redirects(rng: &mut Rng, g: &mut ModuleGraph, known: &[String]) ->
   n
 }
 
+/// A graph with fast-check modules: a registry package whose entry module imports some files only
+/// inside function bodies (fast check prunes those dependencies) and others in its public API;
+/// any of the files may be missing, failing, unparsable or import something missing.
+pub fn gen_fc_graph(rng: &mut Rng) -> (World, Vec<String>, BuildCfg, ModuleGraph, Vec<String>, usize) {
+  use crate::jsrworld::{sha, REGISTRY};
+  let mut world = World::default();
+  let base = format!("{}@s/a/1.0.0", REGISTRY);
+  let mut files: Vec<(String, Vec<u8>)> = vec![];
+  let body_only = rng.chance(80);
+  let dyn_in_body = rng.chance(50);
+  let type_import = rng.chance(70);
+  let mut modts = String::new();
+  if body_only {
+    modts.push_str("import { helper } from \"./helper.ts\";\n");
+  }
+  if type_import {
+    modts.push_str("import type { T } from \"./types.ts\";\n");
+  } else {
+    modts.push_str("type T = number;\n");
+  }
+  if rng.chance(40) {
+    modts.push_str("export * from \"./extra.ts\";\n");
+  }
+  modts.push_str("export function f(x: T): T {\n");
+  if body_only {
+    modts.push_str("  helper();\n");
+  }
+  modts.push_str("  return x;\n}\n");
+  if dyn_in_body {
+    modts.push_str("export async function g(): Promise<void> {\n  await import(\"./lazy.ts\");\n}\n");
+  }
+  files.push(("/mod.ts".into(), modts.into_bytes()));
+  let leaf = |rng: &mut Rng, name: &str, body: &str| -> Option<(String, Vec<u8>)> {
+    match rng.below(10) {
+      0 | 1 => None, // missing
+      2 => Some((name.to_string(), b"import {{{ from ;;;".to_vec())),
+      3 => Some((name.to_string(), format!("import \"./gone_{}.ts\";\n{}", &name[1..name.len() - 3], body).into_bytes())),
+      _ => Some((name.to_string(), body.as_bytes().to_vec())),
+    }
+  };
+  for (name, body) in [
+    ("/helper.ts", "export function helper(): void {}\n"),
+    ("/types.ts", "export type T = string;\n"),
+    ("/extra.ts", "export const extra: number = 1;\n"),
+    ("/lazy.ts", "export const lazy: number = 2;\n"),
+  ] {
+    if let Some(f) = leaf(rng, name, body) {
+      files.push(f);
+    }
+  }
+  let mut manifest = serde_json::Map::new();
+  for (p, b) in &files {
+    manifest.insert(p.clone(), serde_json::json!({"size": b.len(), "checksum": format!("sha256-{}", sha(b))}));
+    world.entries.insert(format!("{}{}", base, p), Entry::Module { src: ModSrc::default(), raw: Some(b.clone()), headers: None });
+  }
+  if rng.chance(15) {
+    world.entries.insert(format!("{}/helper.ts", base), Entry::Error);
+  }
+  world.entries.insert(
+    format!("{}@s/a/meta.json", REGISTRY),
+    Entry::Module { src: ModSrc::default(), raw: Some(br#"{"versions":{"1.0.0":{}}}"#.to_vec()), headers: None },
+  );
+  world.entries.insert(
+    format!("{}@s/a/1.0.0_meta.json", REGISTRY),
+    Entry::Module { src: ModSrc::default(), raw: Some(serde_json::to_vec(&serde_json::json!({"exports": {".": "./mod.ts"}, "manifest": manifest})).unwrap()), headers: None },
+  );
+  let root = "file:///main.ts".to_string();
+  world.entries.insert(
+    root.clone(),
+    Entry::Module { src: ModSrc::default(), raw: Some(b"import { f } from \"jsr:@s/a@1\";\nexport const v = f;\n".to_vec()), headers: None },
+  );
+  let roots = vec![root];
+  let bcfg = BuildCfg::default();
+  let mut loader = WorldLoader::new(&world);
+  loader.only_means_uncached = true;
+  let mut graph = ModuleGraph::new(GraphKind::All);
+  build_with_loader(&mut graph, &loader, &roots, &bcfg);
+  graph.build_fast_check_type_graph(BuildFastCheckTypeGraphOptions {
+    fast_check_cache: None,
+    fast_check_dts: false,
+    jsr_url_provider: Default::default(),
+    es_parser: None,
+    resolver: None,
+    workspace_fast_check: WorkspaceFastCheckOption::Disabled,
+  });
+  let mut known: Vec<String> = world.entries.keys().cloned().collect();
+  for s in graph.specifiers().map(|(s, _)| s.to_string()).collect::<Vec<_>>() {
+    if !known.contains(&s) {
+      known.push(s);
+    }
+  }
+  for (a, b) in &graph.redirects {
+    for s in [a.to_string(), b.to_string()] {
+      if !known.contains(&s) {
+        known.push(s);
+      }
+    }
+  }
+  known.push("https://h.test/unknown-to-graph.ts".to_string());
+  (world, roots, bcfg, graph, known, 0)
+}
+
 pub fn gen_graph(rng: &mut Rng, tier: Tier) -> (World, Vec<String>, BuildCfg, ModuleGraph, Vec<String>, usize) {
+  if rng.chance(12) {
+    return gen_fc_graph(rng);
+  }
   let cfg = GenCfg { assets: false, max_modules: if tier == Tier::Quick { 7 } else { 10 }, redirects: true, faults: true, same_attr_proviso: false };
   let (world, roots) = gen_world(rng, &cfg);
   let mut bcfg = BuildCfg {
@@ -245,6 +350,7 @@ pub fn gen_case(seed: u64, k: u64, tier: Tier) -> Case {
       (format!("errors_{}", n_err.min(5)), 1),
       (format!("redirects_{}", graph.redirects.len().min(5)), 1),
       (format!("graph_kind_{}", bcfg.kind), 1),
+      (format!("fast_check_modules_{}", graph.modules().filter(|m| m.js().map(|j| j.fast_check_module().is_some()).unwrap_or(false)).count().min(3)), 1),
       ("queries".to_string(), nq as u64),
       ("yields".to_string(), total_yields as u64),
     ],
